@@ -326,16 +326,21 @@ func (b c15Bounds) String() string {
 
 const c15Invs = "TypeOK Consistent Safe FixedClean TakeOK NoEndlessLoop"
 
-func c15Cfg(b c15Bounds, v c15Variant, hist bool, view bool) (string, string, string) {
+// emit: "" (no history), "terminal" (one behaviour per terminal state) or "edges" (one per transition)
+func c15Cfg(b c15Bounds, v c15Variant, emit string, view bool) (string, string, string) {
+	hist := emit != ""
 	name, mod, consts := vf.MCModule("Pool", map[string]string{"Caps": "{-1,0,1,2}", "KeyCaps": "{-1,0,1,2}"},
 		map[string]string{"Keys": "{1,2}", "NConns": fmt.Sprint(b.nconns), "MaxPuts": fmt.Sprint(b.puts), "MaxEnv": fmt.Sprint(b.env),
 			"MaxTakes": fmt.Sprint(b.takes), "Exps": "{TRUE,FALSE}", "AfterClose": strings.ToUpper(fmt.Sprint(b.afterClose)),
 			"Hist": strings.ToUpper(fmt.Sprint(hist)), "FixUnlink": strings.ToUpper(fmt.Sprint(v.UnlinkOnce)), "FixOwnList": strings.ToUpper(fmt.Sprint(v.OwnList))})
 	cfg := "SPECIFICATION Spec\n" + consts + "INVARIANTS " + c15Invs
-	if hist {
+	if emit == "terminal" {
 		cfg += " EmitTerminal"
 	}
 	cfg += "\n"
+	if emit == "edges" {
+		cfg += "ACTION_CONSTRAINT EmitEdge\n"
+	}
 	if view {
 		cfg += "VIEW view\n"
 	}
@@ -381,17 +386,17 @@ func C15(c *vf.Ctx) {
 	var wg sync.WaitGroup
 	var covMu sync.Mutex
 	runs := []string{}
-	run := func(tag string, b c15Bounds, hist, view bool, sim string, workers int, mustHold bool) {
+	run := func(tag string, b c15Bounds, emit string, view bool, sim string, workers int) {
 		wg.Add(1)
 		go func() {
 			defer wg.Done()
-			name, mod, cfg := c15Cfg(b, variant, hist, view)
+			name, mod, cfg := c15Cfg(b, variant, emit, view)
 			o := vf.TLCOpts{Module: name, Cfg: cfg, Extra: map[string]string{name + ".tla": mod}, Timeout: 25 * time.Minute, HeapMB: 6000,
 				NoDeadlck: true, Workers: workers, Simulate: sim, Seed: c.Seed}
 			if sim != "" {
 				o.Depth = 60
 			}
-			if hist {
+			if emit != "" {
 				o.OnLine = func(rec []byte) { farm.submit(tag, rec) }
 			}
 			res, err := vf.TLC(o)
@@ -416,21 +421,19 @@ func C15(c *vf.Ctx) {
 	}
 
 	// A. exhaustive design check (all 32 option settings in one run): invariants only
-	// B. behaviours: one shortest behaviour into every distinct terminal state (exhaustive, smaller bounds)
-	//    and a seeded simulation sample of the larger bounds; both with the spontaneous and
-	//    controllable steps in every order TLC finds
+	// B. behaviours: every transition of the graph (smaller bounds), each as a shortest behaviour into
+	//    its source state plus the step, and a seeded simulation sample of larger bounds
 	// C. the same with the pool used after Pool.Close (separate configuration)
 	if q {
-		run("design", c15Bounds{3, 3, 1, 1, false}, false, true, "", 6, true)
-		run("terminal-states", c15Bounds{3, 3, 0, 1, false}, true, true, "", 4, true)
-		run("simulation", c15Bounds{3, 4, 2, 2, false}, true, false, "num=1500", 2, true)
-		run("after-close", c15Bounds{3, 3, 0, 0, true}, true, true, "", 4, true)
+		run("design", c15Bounds{3, 3, 1, 1, false}, "", true, "", 6)
+		run("transitions", c15Bounds{3, 3, 0, 1, false}, "edges", true, "", 4)
+		run("simulation", c15Bounds{3, 4, 2, 2, false}, "terminal", false, "num=1500", 2)
+		run("after-close", c15Bounds{3, 3, 0, 0, true}, "edges", true, "", 3)
 	} else {
-		run("design", c15Bounds{4, 4, 1, 2, false}, false, true, "", 8, true)
-		wg.Wait()
-		run("terminal-states", c15Bounds{3, 3, 1, 2, false}, true, true, "", 6, true)
-		run("simulation", c15Bounds{4, 5, 2, 3, false}, true, false, "num=60000", 4, true)
-		run("after-close", c15Bounds{3, 3, 1, 1, true}, true, true, "", 6, true)
+		run("design", c15Bounds{4, 4, 1, 1, false}, "", true, "", 9)
+		run("simulation", c15Bounds{4, 5, 2, 3, false}, "terminal", false, "num=40000", 2)
+		run("transitions", c15Bounds{3, 3, 1, 1, false}, "edges", true, "", 3)
+		run("after-close", c15Bounds{3, 3, 0, 1, true}, "edges", true, "", 2)
 	}
 	wg.Wait()
 	farm.drain()
@@ -466,7 +469,7 @@ func C15(c *vf.Ctx) {
 	c.Cov["behaviours_by_route_in_final_state"] = farm.routes
 	c.Cov["behaviours_by_anomaly_predicted_by_the_specification"] = farm.anoms
 	c.Cov["signatures"] = farm.sigCount
-	c.Cov["rule"] = "Pool.tla models Put/Take/Close and the three steps of the expiry call-back over the pointer structure of the two intrusive lists and their count fields; TLC checks TypeOK, Consistent (lists and counts agree unless a recorded route was taken), Safe (no statement of the property fails unless a recorded route was taken), TakeOK and NoEndlessLoop exhaustively over all 32 option settings (Capacity, KeyCapacity in {-1,0,1,2}, expiration on/off). One shortest behaviour into every distinct terminal state, a seeded simulation sample of larger bounds, and the same for use after Pool.Close are replayed on a real drpcpool.Pool in a testing/synctest bubble: after every step the count fields, walked list lengths, key presence, Close calls per connection, Take result, panics and the parked expiry call-backs are compared with the specification, and the property's monitors (bounds on walked lengths, Take result open/unblocked/not expiring/handed out once, not closed while handed out, finally handed out or closed) run on the real observations. A behaviour is distinct by (options, call sequence)."
+	c.Cov["rule"] = "Pool.tla models Put/Take/Close and the three steps of the expiry call-back over the pointer structure of the two intrusive lists and their count fields; TLC checks TypeOK, Consistent (lists and counts agree unless a recorded route was taken), Safe (no statement of the property fails unless a recorded route was taken), TakeOK and NoEndlessLoop exhaustively over all 32 option settings (Capacity, KeyCapacity in {-1,0,1,2}, expiration on/off). Every transition of the state graph (as a shortest behaviour into its source state plus the step; smaller bounds), a seeded simulation sample of maximal behaviours of larger bounds, and every transition of a configuration that uses the pool after Pool.Close are replayed on a real drpcpool.Pool in a testing/synctest bubble: after every step the count fields, walked list lengths, key presence, Close calls per connection, Take result, panics and the parked expiry call-backs are compared with the specification, and the property's monitors (bounds on walked lengths, Take result open/unblocked/not expiring/handed out once, not closed while handed out, finally handed out or closed) run on the real observations. A behaviour is distinct by (options, call sequence)."
 	c.Cov["exhaustive"] = false
 }
 
